@@ -155,7 +155,7 @@ def families(tier):
         parts = parts_product(simple=(0, 1), x3=range(NOP), x4=(0, 1, 3, 5, NOP))
     else:
         pre = base + ["x5 == %d" % NOP, "a5 == 0", "sh == 4", "-1 <= bad <= 1", "2 <= n1 <= 3", "n2 == 1"]
-        parts = parts_product(simple=(0, 1), n1=(2, 3), bad=(-1, 0, 1), x3=range(NOP))
+        parts = parts_product(simple=(0, 1), n1=(2, 3), bad=(-1, 0, 1), x3=range(NOP), x4=range(NOP + 1))
     return [Family(name="req", fn="tpl_req", params=P, pre=pre, parts=parts,
                    twin_pre=["simple == 0", "n1 == 3", "n2 == 1", "bad == 0", "x3 == 0", "x4 == 1", "x5 == %d" % NOP],
                    twin_args=[4, 0, 3, 4, 0, 1, 0, 0, 1, 0, NOP, 0, 5])]
